@@ -714,6 +714,11 @@ theorem consuming_loops_do_not_return_after_failure (c : C) (hc : Healthy c) (as
 
 theorem gen_consume_exit : Gen.Transport.consumeLoopsCheckOnExit = true := by decide
 
+/-- the model's socket steps (a send or receive that does not complete comes back after the connection's time-out, so the
+    thread reaches its next error check) rest on the socket being created with that time-out; and the reader reads under the
+    read lock that `IO.close` holds while it drops the socket.  Both read from the source on this run. -/
+theorem gen_socket_discipline : Gen.Transport.socketHasTimeout = true ∧ Gen.Transport.readUnderReadLock = true := by decide
+
 /-- **The reader notices a dead socket before any time passes** (it sits in poll, which returns at
     once on EOF/reset); and so does every later call: its first check is immediate. -/
 theorem no_time_passes_on_dead_socket (t : T) (d : Nat) (hd : t.socketDead.isSome) (hrun : t.readerRunning = true)
